@@ -183,6 +183,16 @@ def _assign(w, deck, a):
         holder = sh
         tf = sh.text_frame
         key = ("sp", sl.slide_id, sh.shape_id)
+    if a.get("held"):
+        # the TextFrame / cell proxy obtained the first time is used again (it stays valid: its element is never replaced)
+        hk = ("c04tf",) + tuple(key)
+        if hk in deck.handles:
+            tf, holder_h = deck.handles[hk]
+            if holder is not None:
+                holder = holder_h
+            w.stats.hit("c04_held_text_frame_used")
+        else:
+            deck.handles[hk] = (tf, holder)
     _check_persist(w, deck, key, tf, "before-next-assignment")
     pre = _reading(tf)
     if a.get("same"):
